@@ -348,9 +348,9 @@ fn exec(sh: &Shared, e: &Value) -> Result<(), String> {
             let h = take(s).ok_or("clone of free slot")?;
             // C16: the handle is cloned by the C driver - or, for every other (source, destination) pair, by Rust: a handle
             // works the same whichever side made it, cloned it or releases it
-            let cm = C_MODE.load(SeqCst) != 0 && (s + d) % 2 == 0;
+            let cm = C_MODE.load(SeqCst) != 0 && (s + d) % 2 == 1;
             let mut h = h;
-            let via_mut = !cm && (s + d) % 2 == 1;
+            let via_mut = !cm && (s + d) % 4 >= 2;
             let c = ledger::track(|| unsafe {
                 match &mut h {
                     // alternately through the mutable reference transpose From<&mut CArc> for Option<&mut CArcSome>
